@@ -29,7 +29,6 @@ import io
 import json
 import os
 import random
-import re
 import sys
 import time
 
@@ -65,29 +64,15 @@ class _FakeSock:
         return self.bio
 
 
-_VERSION = re.compile(rb'^HTTP/(\d)\.(\d) ')
-
-
 def decode_responses(data, method='GET', limit=6):
     """Successive responses in `data` -> [(end offset, status, parse, announces_close, why)].
-    parse: "ok" | "garbage" (no status line / headers do not parse) | "incomplete"
-    (headers fine, body shorter than announced).
-
-    http.client refuses any HTTP-version other than 0.9 / 1.x although
-    `HTTP/2.0 505 ...` is a status line of the RFC 7230 grammar (HTTP-name "/"
-    DIGIT "." DIGIT); "syntactically valid" is all C14 asks, so such a token is
-    read as HTTP/1.1 (why = "version:<token>" records it).  A token that is not
-    of that form stays garbage."""
+    parse: "ok" | "garbage" (http.client finds no status line it accepts / the
+    headers do not parse) | "incomplete" (headers fine, body shorter than
+    announced); why = class name of http.client's exception."""
     out = []
     pos = 0
     while pos < len(data) and len(out) < limit:
-        seg = data[pos:]
-        why = ''
-        m = _VERSION.match(seg)
-        if m and not (m.group(1) == b'1' or (m.group(1), m.group(2)) == (b'0', b'9')):
-            why = 'version:' + seg[:8].decode('latin1')
-            seg = b'HTTP/1.1' + seg[8:]
-        bio = _Bio(seg)
+        bio = _Bio(data[pos:])
         r = http.client.HTTPResponse(_FakeSock(bio), method=method)
         try:
             r.begin()
@@ -106,7 +91,7 @@ def decode_responses(data, method='GET', limit=6):
         if not r.chunked and r.length not in (None, 0):     # read() came back short without raising
             short = True
         pos += bio.tell()
-        out.append((pos, r.status, 'incomplete' if short else 'ok', sc, why))
+        out.append((pos, r.status, 'incomplete' if short else 'ok', sc, ''))
     return out
 
 
@@ -129,6 +114,7 @@ class World:
         self.cid = {}            # id(sock) -> c
         self.peer = set()        # connections whose disconnect the harness injected
         self.dead = False
+        self.decoder = []        # what the decoder complained about (exception class names, "version")
         self._writes = {}        # c -> [(index in self.lines where the write happened, bytes)]
         self._probe_seen = 0
 
@@ -230,6 +216,7 @@ class World:
                 pos = next(p for t, p in ends if t >= min(end, tot))
                 inserts.append((pos, n, line('resp', c, st=st, pr=pr, sc=sc)))
                 if why:
+                    self.decoder.append(why)
                     self.notes.append('decoder on connection %d: %s; bytes %r' % (c, why, data[:80]))
         self._writes = {}
         for pos, n, ln in sorted(inserts, key=lambda t: (-t[0], -t[1])):
@@ -294,6 +281,15 @@ class World:
         conn = self.conns[c]
         return conn.closed or conn.peer_gone
 
+    def waiting(self, c):
+        """The last message delivered on c has drawn no reaction yet."""
+        for ln in reversed(self.lines):
+            if ln['c'] == c and ln['k'] in ('req', 'rej', 'resp', 'close', 'conn'):
+                return False
+            if ln['c'] == c and ln['k'] == 'in':
+                return True
+        return False
+
     def close(self):
         self.h.close()
 
@@ -302,10 +298,13 @@ class World:
 # scripts: [('conn', c) | ('in', c, Msg) | ('inx', c, Msg) | ('disc', c)]
 # ('inx' = read with the peer's disconnect queued right behind it)
 
-def run_script(script):
+def run_script(script, strict=False):
     """Replay a concrete script on the real component -> (lines, notes, steps done).
     Steps addressed to a connection that is already gone are skipped (the model
-    only produces them when the code reacts differently from the model)."""
+    only produces them when the code reacts differently from the model); with
+    strict (model histories) so are inputs other than Rest on a connection whose
+    previous message is still unanswered: the model takes them to start a new
+    message, for the component they would continue the old one."""
     w = World()
     done = []
     try:
@@ -320,6 +319,9 @@ def run_script(script):
             elif c not in w.conns or w.gone(c):
                 done.append(None)
                 continue
+            elif strict and op in ('in', 'inx') and step[2].cls != 'Rest' and w.waiting(c):
+                done.append(None)
+                continue
             elif op == 'in':
                 w.feed(c, step[2])
             elif op == 'inx':
@@ -327,7 +329,7 @@ def run_script(script):
             elif op == 'disc':
                 w.disconnect(c)
             done.append(step)
-        return w.lines, w.notes, done
+        return w.lines, w.notes + ['decoder:' + d for d in w.decoder], done
     finally:
         w.close()
 
@@ -365,6 +367,629 @@ def describe(script, maxbytes=70):
         else:
             out.append('%s c%d' % (st[0], st[1]))
     return out
+
+
+# ---------------------------------------------------------------------------
+# histories of the model -> scripts; predictions
+
+def hist_key(h):
+    return tuple((x[0], x[1], x[2]) for x in h)
+
+
+def realise_history(h, rnd, rep):
+    """Model history [["C"|"I"|"X"|"D", c, cls]] -> concrete script.  The mutant of
+    each class is drawn from rnd; Rest is the remainder of the connection's
+    preceding Truncate."""
+    script = []
+    trunc = {}
+    for op, c, cls in h:
+        if op == 'C':
+            script.append(('conn', c))
+        elif op == 'D':
+            script.append(('disc', c))
+        else:
+            if cls == 'Rest':
+                m = G.rest_of(trunc[c])
+            else:
+                m = G.realise(cls, rnd)
+                if cls == 'Truncate':
+                    trunc[c] = m
+            script.append(('in' if op == 'I' else 'inx', c, m))
+    return script
+
+
+def effective_history(done):
+    out = []
+    for st in done:
+        if st is None:
+            continue
+        if st[0] == 'conn':
+            out.append(('C', st[1], ''))
+        elif st[0] == 'disc':
+            out.append(('D', st[1], ''))
+        else:
+            out.append(('I' if st[0] == 'in' else 'X', st[1], st[2].cls))
+    return tuple(out)
+
+
+def norm_real(lines):
+    """The projection of a real trace the model commits itself to (tuples shaped
+    like HttpConn!Compact): the size of an input is not predicted."""
+    return tuple((ln['k'], ln['c'], ln['cls'], ln['st'], ln['pr'], bool(ln['sc']), 0 if ln['k'] == 'in' else ln['a'], ln['b'])
+                 for ln in lines)
+
+
+def norm_model(out):
+    return tuple((o[0], o[1], o[2], o[3], o[4], bool(o[5]), o[6], o[7]) for o in out)
+
+
+# ---------------------------------------------------------------------------
+# enumerated families (code -> spec)
+
+def scripts_every_mutant(rnd, quick):
+    """Every mutant of every bad class: on a fresh connection and on a connection
+    kept alive by a good request; followed by silence, by the peer's hang-up, or
+    with the hang-up queued right behind the read."""
+    out = []
+    for cls, sub in G.all_subs():
+        for ctxname in ('fresh', 'keptalive'):
+            for ending in ('disc', 'race', 'silence'):
+                if quick and ending == 'silence' and ctxname == 'keptalive':
+                    continue
+                m = G.realise(cls, rnd, sub=sub)
+                sc = [('conn', 1)]
+                if ctxname == 'keptalive':
+                    sc.append(('in', 1, G.realise('GoodKA', rnd)))
+                sc.append(('inx' if ending == 'race' else 'in', 1, m))
+                if ending == 'disc':
+                    sc.append(('disc', 1))
+                out.append(('mutant:%s:%s' % (ctxname, ending), sc))
+    return out
+
+
+def scripts_truncations(rnd, quick):
+    """A well-formed request cut at EVERY offset: then the peer hangs up / hangs up
+    right behind the read / sends the rest; and the same on a second connection
+    while the first stays usable."""
+    out = []
+    for b, off in G.truncations():
+        t = G.realise('Truncate', rnd, base=b, offset=off)
+        out.append(('trunc:disc', [('conn', 1), ('in', 1, t), ('disc', 1)]))
+        out.append(('trunc:rest', [('conn', 1), ('in', 1, t), ('in', 1, G.rest_of(t)), ('disc', 1)]))
+        if not quick or off % 3 == 0:
+            out.append(('trunc:race', [('conn', 1), ('inx', 1, t)]))
+        if not quick or off % 5 == 0:
+            g = G.realise('GoodKA', rnd)
+            out.append(('trunc:two', [('conn', 1), ('in', 1, g), ('conn', 2), ('in', 2, t), ('in', 1, g), ('disc', 2),
+                                      ('in', 1, g), ('disc', 1)]))
+    return out
+
+
+def scripts_random(rnd, n, fuzz):
+    """Seeded random scripts over <= 3 connections; after an unanswered message
+    anything may follow (continuation bytes of an arbitrary class)."""
+    out = []
+    for _ in range(n):
+        nconn = rnd.choice([1, 2, 2, 3])
+        sc = [('conn', 1)]
+        opened = {1}
+        trunc = {}
+        for _ in range(rnd.randint(2, 8)):
+            c = rnd.randint(1, nconn)
+            if c not in opened:
+                sc.append(('conn', c))
+                opened.add(c)
+                continue
+            r = rnd.random()
+            if r < 0.12:
+                sc.append(('disc', c))
+                continue
+            if fuzz and r < 0.55:
+                m = G.random_garbage(rnd)
+            elif r < 0.3 and c in trunc:
+                m = G.rest_of(trunc.pop(c))
+            else:
+                cls = rnd.choice(['GoodKA', 'GoodKA', 'GoodClose', 'Truncate'] + G.BAD_CLASSES)
+                m = G.realise(cls, rnd)
+                if cls == 'Truncate':
+                    trunc[c] = m
+            sc.append(('inx' if rnd.random() < 0.1 else 'in', c, m))
+        out.append(('fuzz' if fuzz else 'random', sc))
+    return out
+
+
+# ---------------------------------------------------------------------------
+# witnesses
+
+def witness_of(lines, badline, notes):
+    """Classify a rejected trace for known-finding matching: what happened on the
+    connection concerned since its last message began."""
+    bl = lines[badline - 1]
+    c = bl['c']
+    if bl['k'] == 'alive' and bl['a'] == 1:
+        # close owed: find the connection that announced close and was not closed
+        st = {}
+        for ln in lines[:badline - 1]:
+            k = ln['k']
+            d = st.setdefault(ln['c'], {'sc': False, 'closed': False, 'gone': False})
+            if k == 'in':
+                d['sc'] = False
+            elif k == 'resp':
+                d['sc'] = ln['sc']
+            elif k == 'close':
+                d['closed'] = True
+            elif k == 'disc':
+                d['gone'] = True
+        owed = [k for k, d in st.items() if d['sc'] and not d['closed'] and not d['gone']]
+        c = owed[0] if owed else c
+    # where the message concerned began (mirror of HttpConnOps!Apply: a message that has
+    # drawn no reaction is continued by the next read)
+    start, ph, nresp, nin, first = 0, 'none', 0, 0, None
+    for i, ln in enumerate(lines[:badline]):
+        if ln['c'] != c:
+            continue
+        k = ln['k']
+        if k == 'in':
+            if ph == 'recv' and nresp == 0:
+                nin += 1
+            else:
+                start, ph, nresp, nin, first = i, 'recv', 0, 1, ln
+        elif k in ('req', 'rej') and ph == 'recv':
+            ph = 'disp' if k == 'req' else 'rej'
+        elif k == 'resp':
+            nresp += 1
+    mine = [ln for ln in lines[start:badline] if ln['c'] == c]
+    ins = [first] if first else []
+    cls = first['cls'] if first else ''
+    wf = first['wf'] if first else ''
+    rej = [ln['st'] for ln in mine if ln['k'] == 'rej']
+    req = any(ln['k'] == 'req' for ln in mine)
+    resp = [ln for ln in mine if ln['k'] == 'resp']
+    closed = any(ln['k'] == 'close' for ln in mine)
+    discs = [ln['a'] for ln in lines[:badline] if ln['k'] == 'disc' and ln['c'] == c]
+    if not ins:
+        outcome = 'nomessage'
+    elif req:
+        outcome = 'dispatched'
+    elif rej or resp:
+        outcome = 'rejected'
+    elif closed:
+        outcome = 'plainclose'
+    else:
+        outcome = 'waiting'
+    w = {'cls': cls, 'wf': wf, 'outcome': outcome, 'rej': rej[0] if rej else 0,
+         'status': resp[0]['st'] if resp else 0, 'parse': resp[0]['pr'] if resp else '',
+         'nresp': len(resp), 'exc': any(ln['k'] == 'exc' for ln in lines[start:badline]),
+         'hangup': '' if not discs else ('peer' if discs[0] == 1 else 'server'),
+         'continued': nin > 1}
+    if bl['k'] == 'tab':
+        w['table'] = 'parser' if bl['a'] and not bl['b'] else ('client' if bl['b'] and not bl['a'] else 'both')
+    if bl['k'] == 'alive':
+        w['why'] = bl['pr'] or 'close_owed'
+    dec = sorted({n.split(':', 1)[1] for n in notes if n.startswith('decoder:')} - {'version'})
+    if bl['k'] == 'resp' and dec:
+        w['decoder'] = dec[0]
+    return w
+
+
+# ---------------------------------------------------------------------------
+# corrupted traces (binding demonstration)
+
+HOWS = ['residue', 'two', 'garbage', 'incomplete', 'noclose', 'keptbutclosed', 'dead', 'dispatch', 'status', 'goodclosed']
+
+
+def mutate_trace(rnd, lines, how):
+    """Corrupt an accepted real trace so that one named clause must reject it."""
+    out = [dict(ln) for ln in lines]
+    idx = {k: [i for i, ln in enumerate(out) if ln['k'] == k] for k in ('resp', 'tab', 'alive', 'rej', 'close', 'req', 'in')}
+    peer_gone = set()
+    if how == 'residue':
+        gone = set()
+        cands = []
+        for i, ln in enumerate(out):
+            if ln['k'] == 'disc':
+                gone.add(ln['c'])
+            if ln['k'] == 'tab' and ln['c'] in gone:
+                cands.append(i)
+        if not cands:
+            return None
+        i = rnd.choice(cands)
+        out[i]['a' if rnd.random() < 0.5 else 'b'] = 1
+        return out, 'C14.residue', 'table entry after disconnect at line %d' % (i + 1)
+    # responses whose connection's peer has not hung up before them
+    live = []
+    for i, ln in enumerate(out):
+        if ln['k'] == 'disc' and ln['a'] == 1:
+            peer_gone.add(ln['c'])
+        if ln['k'] == 'resp' and ln['c'] not in peer_gone:
+            live.append(i)
+    if how == 'dead':
+        i = rnd.choice(idx['alive'])
+        out[i]['a'] = 0
+        out[i]['pr'] = rnd.choice(['livelock', 'escaped', 'noprobe'])
+        return out, 'C14.loop_dead', 'loop dead at line %d' % (i + 1)
+    if not live:
+        return None
+    i = rnd.choice(live)
+    c = out[i]['c']
+    if how == 'two':
+        out.insert(i + 1, dict(out[i]))
+        return out, 'C14.two_responses', 'response repeated at line %d' % (i + 2)
+    if how in ('garbage', 'incomplete'):
+        out[i]['pr'] = how
+        return out, 'C14.invalid_response', 'response %s at line %d' % (how, i + 1)
+    if how == 'noclose':
+        if not out[i]['sc']:
+            return None
+        j = next((j for j in range(i + 1, len(out)) if out[j]['k'] == 'close' and out[j]['c'] == c), None)
+        if j is None:
+            return None
+        # neither the close nor the transport's disconnect that follows it
+        cut = [j] + [k for k in range(j + 1, min(j + 3, len(out))) if out[k]['k'] == 'disc' and out[k]['c'] == c]
+        if any(out[k]['k'] == 'disc' and out[k]['c'] == c for k in range(0, j)):
+            return None
+        out = [ln for k, ln in enumerate(out) if k not in cut]
+        return out, 'C14.close_mismatch', 'announced close never fired (response at line %d)' % (i + 1)
+    if how == 'keptbutclosed':
+        if out[i]['sc'] or any(ln['k'] == 'disc' and ln['c'] == c for ln in out[:i]):
+            return None
+        out.insert(i + 1, line('close', c))
+        return out, 'C14.close_mismatch', 'close after a keep-alive response at line %d' % (i + 2)
+    if how == 'dispatch':
+        rj = [j for j in idx['rej'] if out[j]['c'] == c and j < i and not any(
+            out[k]['k'] in ('req', 'in') and out[k]['c'] == c for k in range(j + 1, i)) and not any(
+            out[k]['k'] == 'req' and out[k]['c'] == c for k in range(max(0, j - 3), j))]
+        rj = [j for j in rj if _phase_before(out, j, c) == 'recv']
+        if not rj:
+            return None
+        j = rj[-1]
+        out.insert(j + 1, line('req', c))
+        return out, 'C14.dispatch_after_reject', 'request dispatched after the rejection at line %d' % (j + 1)
+    if how == 'status':
+        # a component-generated answer to malformed input with a 2xx status
+        if _phase_before(out, i, c) != 'rej' or _wf_before(out, i, c) != 'mal':
+            return None
+        out[i]['st'] = 200
+        return out, 'C14.invalid_response', '2xx for a rejected malformed message at line %d' % (i + 1)
+    if how == 'goodclosed':
+        # a complete well-formed request is closed on instead of answered
+        if _wf_before(out, i, c) != 'good' or any(ln['k'] == 'disc' and ln['c'] == c for ln in out[:i]):
+            return None
+        if any(out[k]['k'] == 'resp' and out[k]['c'] == c for k in range(_last_in(out, i, c), i)):
+            return None
+        out[i] = line('close', c)
+        return out, 'C14.close_mismatch', 'good request closed on without an answer at line %d' % (i + 1)
+    return None
+
+
+def _last_in(lines, i, c):
+    j = i
+    while j > 0 and not (lines[j]['k'] == 'in' and lines[j]['c'] == c):
+        j -= 1
+    return j
+
+
+def _phase_before(lines, i, c):
+    """Monitor phase of connection c before line i (mirror of HttpConnOps!Apply,
+    used only to pick corruptible places)."""
+    ph, nresp = 'none', 0
+    for ln in lines[:i]:
+        if ln['c'] != c:
+            continue
+        k = ln['k']
+        if k == 'conn':
+            ph = 'idle'
+        elif k == 'in':
+            if not (ph == 'recv' and nresp == 0):
+                ph, nresp = 'recv', 0
+        elif k in ('req', 'rej') and ph == 'recv':
+            ph = 'disp' if k == 'req' else 'rej'
+        elif k == 'resp':
+            nresp += 1
+    return ph
+
+
+def _wf_before(lines, i, c):
+    ph, nresp, wf = 'none', 0, ''
+    for ln in lines[:i]:
+        if ln['c'] != c:
+            continue
+        k = ln['k']
+        if k == 'conn':
+            ph = 'idle'
+        elif k == 'in':
+            if ph == 'recv' and nresp == 0:
+                wf = 'good' if (ln['cls'] == 'Rest' and wf == 'partial') else 'hostile'
+            else:
+                ph, nresp, wf = 'recv', 0, ln['wf']
+        elif k in ('req', 'rej') and ph == 'recv':
+            ph = 'disp' if k == 'req' else 'rej'
+        elif k == 'resp':
+            nresp += 1
+    return wf
+
+
+# ---------------------------------------------------------------------------
+# replay in forked workers
+
+def _job(job):
+    script, strict = job
+    try:
+        return run_script(script, strict)
+    except Exception as e:         # a harness failure must not be mistaken for a verdict
+        import traceback
+        return ('ERROR', traceback.format_exc(), describe(script))
+
+
+def replay_all(scripts, stricts, procs):
+    import multiprocessing as mp
+    jobs = list(zip(scripts, stricts))
+    if procs <= 1 or len(scripts) < 64:
+        res = [_job(j) for j in jobs]
+    else:
+        ctx = mp.get_context('fork')
+        with ctx.Pool(procs) as pool:
+            res = pool.map(_job, jobs, chunksize=max(1, len(jobs) // (procs * 16)))
+    for r in res:
+        if r[0] == 'ERROR':
+            raise tlc.MachineryError('replay failed on %s:\n%s' % (r[2], r[1]))
+    return res
+
+
+def show(lines):
+    for i, ln in enumerate(lines, 1):
+        extra = {k: ln[k] for k in KEYS[2:] if ln[k] not in ('', 0, False)}
+        print('%3d %-6s c%d %s' % (i, ln['k'], ln['c'], extra or ''))
+
+
+def run_replay(path):
+    """./check C14 --replay <file>: re-run one recorded script on the real component."""
+    rec = json.load(open(path))
+    script = script_from_json(rec['detail']['script'])
+    for d in describe(script, 200):
+        print('   ' + d)
+    lines, notes, _ = run_script(script)
+    show(lines)
+    for n in notes:
+        print('   note: ' + n)
+    verdicts, _ = tlc.validate_traces(SPEC, 'HttpConnTrace', 'HttpConnTrace.cfg', [lines], shards=1)
+    clause, ln = verdicts[0]
+    if clause:
+        print('VIOLATION property=C14 replay=%s clause=%s line=%d witness=%s' % (
+            path, clause, ln, json.dumps(witness_of(lines, ln, notes), sort_keys=True)))
+        return 1
+    print('replay accepted: no clause of C14 fails on this tree')
+    return 0
+
+
+# ---------------------------------------------------------------------------
+
+ACTIONS = ('Connect', 'In', 'InX', 'Disc')
+VARIANTS = {frozenset(): 'fixed', frozenset(['keepbuf']): 'keepbuf', frozenset(['echo505']): 'echo505',
+            frozenset(['keepbuf', 'echo505']): 'pinned'}
+
+
+def run(tier, replay=None):
+    use_repo()
+    if replay:
+        return run_replay(replay)
+    from concurrent.futures import ThreadPoolExecutor
+    ctx = Ctx(PID, tier)
+    quick = tier == 'quick'
+    rnd = random.Random(ctx.seed * 7919 + 14)
+    procs = min(8, os.cpu_count() or 2)
+    timing = {}
+    t0 = time.time()
+
+    # 1. TLC: the intended discipline obeys the monitor for all interleaved histories;
+    #    each defect of the pinned code violates it; histories are dumped.
+    suffix = '' if quick else '_thorough'
+    jobs = {
+        'mc': lambda: tlc.model_check(SPEC, 'HttpConn', 'MC_HttpConn%s.cfg' % suffix, coverage=True, workers=4),
+        'gen:keepbuf': lambda: tlc.run_tlc(SPEC, 'HttpConn', 'MC_HttpConn_keepbuf.cfg', workers=1),
+        'gen:echo505': lambda: tlc.run_tlc(SPEC, 'HttpConn', 'MC_HttpConn_echo505.cfg', workers=1),
+        'hist:one': lambda: tlc.dump_states(SPEC, 'HttpConn', 'HIST_HttpConn_one%s.cfg' % suffix, workers=4),
+        'hist:two': lambda: tlc.dump_states(SPEC, 'HttpConn', 'HIST_HttpConn_two%s.cfg' % suffix, workers=4),
+    }
+    with ThreadPoolExecutor(max_workers=len(jobs)) as ex:
+        futs = {k: ex.submit(f) for k, f in jobs.items()}
+        results = {k: f.result() for k, f in futs.items()}
+    timing['tlc_model_and_dumps_s'] = round(time.time() - t0, 1)
+    timing['tlc_each_s'] = {k: round((v[0] if isinstance(v, tuple) else v).wall_s, 1) for k, v in results.items()}
+    t0 = time.time()
+    mc = results['mc']
+    for act in ACTIONS:
+        if act not in mc.coverage or mc.coverage[act][1] == 0:
+            raise tlc.MachineryError('vacuous model: action %s never taken (%s)' % (act, mc.coverage))
+    expect = {'gen:keepbuf': 'C14.residue', 'gen:echo505': 'C14.invalid_response'}
+    gen_hists = []
+    for k, clause in expect.items():
+        g = results[k]
+        if g.violated not in ('Conforms', 'NoResidue'):
+            raise tlc.MachineryError('defect variant %s of HttpConn.tla violates %r, not Conforms: the model lost its teeth' % (k, g.violated))
+        last = g.error_trace[-1][1] if g.error_trace else {}
+        if g.violated == 'Conforms' and last.get('bad') != clause:
+            raise tlc.MachineryError('defect variant %s fails with %r, expected %s' % (k, last.get('bad'), clause))
+        if last.get('hist'):
+            gen_hists.append(last['hist'])
+
+    # predictions: variant -> effective history -> set of line sequences
+    pred = {v: {} for v in VARIANTS.values()}
+    hists = {}
+    dump_states = 0
+    for key in ('hist:one', 'hist:two'):
+        res, states = results[key]
+        dump_states += res.distinct
+        for st in states:
+            hk = hist_key(st['hist'])
+            v = VARIANTS[frozenset(st['dv'])]
+            pred[v].setdefault(hk, set()).add(norm_model(st['out']))
+            hists[hk] = st['hist']
+    prefixes = set()
+    for hk in hists:
+        for i in range(len(hk)):
+            prefixes.add(hk[:i])
+    maximal = sorted((hk for hk in hists if hk not in prefixes), key=repr)
+    for h in gen_hists:                      # the counterexamples of the defect generators are replayed too
+        hk = hist_key(h)
+        if hk not in hists:
+            hists[hk] = h
+            maximal.append(hk)
+    seen_ops = {x[0] for hk in maximal for x in hk}
+    if seen_ops != {'C', 'I', 'X', 'D'}:
+        raise tlc.MachineryError('history dump lacks some environment action: %s' % sorted(seen_ops))
+    timing['parse_dumps_s'] = round(time.time() - t0, 1)
+    t0 = time.time()
+
+    # 2. scripts
+    scripts, origin = [], []
+    reps = 1 if quick else 3
+    for idx, hk in enumerate(maximal):
+        for rep in range(reps):
+            r = random.Random('%d/%d/%d' % (ctx.seed, idx, rep))
+            scripts.append(realise_history(hk, r, rep))
+            origin.append('tlc-history')
+    n_hist_scripts = len(scripts)
+    for org, sc in scripts_every_mutant(rnd, quick) + scripts_truncations(rnd, quick) + \
+            scripts_random(rnd, 250 if quick else 4000, fuzz=False) + scripts_random(rnd, 250 if quick else 4000, fuzz=True):
+        scripts.append(sc)
+        origin.append(org)
+
+    runs = replay_all(scripts, [o == 'tlc-history' for o in origin], procs)
+    timing['replay_s'] = round(time.time() - t0, 1)
+    t0 = time.time()
+
+    # 3. TLC judges every recorded trace
+    traces = [r[0] for r in runs]
+    verdicts, stats = tlc.validate_traces(SPEC, 'HttpConnTrace', 'HttpConnTrace.cfg', traces, shards=4 if quick else 8)
+    timing['validate_s'] = round(time.time() - t0, 1)
+    t0 = time.time()
+
+    accepted = []
+    n_cmp = n_match = 0
+    matched_variant = {v: 0 for v in VARIANTS.values()}
+    obs = {'malformed_dispatched': 0, 'exception_events': 0, 'tls_hello_not_recognised': 0,
+           'answered_3xx': 0, 'waiting': 0}
+    lenient = {}
+    by_origin = {}
+    subs_seen = set()
+    for script, org, (lines, notes, done), (clause, badline) in zip(scripts, origin, runs, verdicts):
+        by_origin[org.split(':')[0]] = by_origin.get(org.split(':')[0], 0) + 1
+        reacted = any(ln['k'] in ('req', 'rej', 'resp', 'close') for ln in lines)
+        ctx.count_case(script_to_json(script), nontrivial=reacted,
+                       sample={'script': describe(script, 48), 'origin': org, 'verdict': clause or 'accepted',
+                               'trace': ['%s%d%s' % (ln['k'], ln['c'], (':%d' % ln['st']) if ln['k'] in ('rej', 'resp') else '')
+                                         for ln in lines][:40]})
+        if clause:
+            ctx.violation(clause, witness_of(lines, badline, notes),
+                          {'script': script_to_json(script), 'describe': describe(script, 120), 'trace': lines,
+                           'line': badline, 'notes': notes, 'origin': org})
+        else:
+            accepted.append(lines)
+        # observations (not verdicts): what the property leaves open
+        steps = [st for st in done if st is not None and st[0] in ('in', 'inx')]
+        obs['exception_events'] += sum(1 for ln in lines if ln['k'] == 'exc')
+        obs['answered_3xx'] += sum(1 for ln in lines if ln['k'] == 'resp' and 300 <= ln['st'] < 400)
+        for st in steps:
+            subs_seen.add((st[2].cls, st[2].sub.split('@')[0]))
+        if len(steps) == 1 and org.startswith('mutant:fresh'):
+            m = steps[0][2]
+            if m.wf == 'mal' and any(ln['k'] == 'req' for ln in lines):
+                obs['malformed_dispatched'] += 1
+                lenient['%s/%s' % (m.cls, m.sub)] = 1
+            if m.cls == 'TlsHello' and not reacted:
+                obs['tls_hello_not_recognised'] += 1
+            if not reacted:
+                obs['waiting'] += 1
+        # model's lines vs real lines
+        if org == 'tlc-history':
+            eh = effective_history(done)
+            cands = {v: pred[v].get(eh) for v in pred if eh in pred[v]}
+            if not cands:
+                continue
+            n_cmp += 1
+            real = norm_real(lines)
+            hit = [v for v, outs in cands.items() if real in outs]
+            if hit:
+                n_match += 1
+                for v in hit:
+                    matched_variant[v] += 1
+            else:
+                ctx.note_drift('history %s realised as %s: the real lines are none of the model\'s %d predictions: %s' % (
+                    [list(x) for x in eh], describe(script, 40), sum(len(o) for o in cands.values()),
+                    [(ln['k'], ln['c'], ln['st'], ln['a'], ln['b']) for ln in lines]))
+    missing = [x for x in G.all_subs() if x not in subs_seen]
+    if missing:
+        raise tlc.MachineryError('%d mutants of the grammar were never delivered, e.g. %s' % (len(missing), missing[0]))
+
+    # 4. binding demonstration: corrupted real traces must be rejected, by the clause aimed at
+    muts = []
+    pool = list(accepted)
+    rnd.shuffle(pool)
+    want = 120 if quick else 800
+    per_clause = {}
+    per_how = {h: 0 for h in HOWS}
+    for lines in pool:
+        if len(muts) >= want:
+            break
+        # the kind of corruption made least often so far that this trace offers
+        for how in sorted(HOWS, key=lambda h: (per_how[h], h)):
+            m = mutate_trace(rnd, lines, how)
+            if m:
+                muts.append(m)
+                per_how[how] += 1
+                per_clause[m[1]] = per_clause.get(m[1], 0) + 1
+                break
+    need = {'C14.residue', 'C14.two_responses', 'C14.invalid_response', 'C14.close_mismatch', 'C14.loop_dead',
+            'C14.dispatch_after_reject'}
+    if muts:
+        mv, _ = tlc.validate_traces(SPEC, 'HttpConnTrace', 'HttpConnTrace.cfg', [m[0] for m in muts], shards=2 if quick else 4)
+        missed = [(muts[i][1], muts[i][2], c) for i, (c, _) in enumerate(mv) if c != muts[i][1]]
+        if missed:
+            raise tlc.MachineryError('trace spec misjudged %d corrupted traces, e.g. expected %s (%s), got %r' % (
+                len(missed), missed[0][0], missed[0][1], missed[0][2]))
+    if need - set(per_clause):
+        raise tlc.MachineryError('self-test produced no corrupted trace for %s' % sorted(need - set(per_clause)))
+    timing['compare_and_selftest_s'] = round(time.time() - t0, 1)
+
+    obs['malformed_dispatched_mutants'] = sorted(lenient)
+    vh = {}
+    for clause, w, _ in ctx.violations:
+        key = '%s %s' % (clause, json.dumps({k: v for k, v in w.items() if k not in ('cls', 'wf', 'continued', 'nresp')}, sort_keys=True))
+        vh[key] = vh.get(key, 0) + 1
+    return ctx.finish(coverage={
+        'states': mc.distinct, 'transitions': mc.generated,
+        'traces_validated_against_impl': len(traces),
+        'model_histories_replayed': len(maximal), 'history_realisations': n_hist_scripts,
+        'history_dump_states': dump_states,
+        'scripts_by_origin': by_origin,
+        'grammar_mutants': len(G.all_subs()), 'truncation_offsets': len(G.truncations()),
+        'model_line_exact_match': n_match, 'model_line_compared': n_cmp, 'model_variant_matches': matched_variant,
+        'trace_validation_states': stats['states'],
+        'corrupted_traces_rejected': len(muts), 'corrupted_by_clause': per_clause, 'corrupted_by_kind': per_how,
+        'defect_variants_violate': {k: results[k].violated for k in expect},
+        'observations_not_verdicts': obs,
+        'rejected_traces_by_witness': vh,
+        'timing': timing,
+        'rule': 'cases = concrete scripts (connect / read of one concrete message / read with hang-up queued behind / peer '
+                'hang-up, over <= 3 connections): every maximal environment history TLC dumps for HttpConn.tla with each class '
+                'realised by a seeded mutant; every mutant of the grammar on a fresh and on a kept-alive connection with three '
+                'endings; every base request cut at every offset (then hang-up / rest / racing hang-up / beside a second '
+                'connection); seeded random scripts and byte-level fuzz; non-trivial = the component reacted (request, '
+                'rejection, response or close); distinct by hash of the script',
+        'exhaustive': False,
+    }, assumptions=[
+        'transport is the socket double of harness/httpdouble.py: close(sock) closes at once and is followed by '
+        'disconnect(sock), as circuits.net.sockets.Server does when its write buffer is empty (buffer draining is C11/C12); '
+        'no read is delivered after close or disconnect',
+        'every message is delivered as one read event and the pipeline is quiescent before the next (no pipelining; '
+        'segmentation is C13); truncation + rest covers two-segment delivery at every offset',
+        'http.client.HTTPResponse is the independent response parser: a response it cannot read (including one labelled '
+        'with an HTTP version other than 0.9 / 1.x) is not a valid response on an HTTP/1.x connection',
+        'the input language is sampled by the mutation grammar (classes built from the parser\'s branch conditions), not '
+        'enumerated; TLC enumerates the histories over the classes',
+        'the application is a trivial root controller that answers every path with 200',
+    ])
 
 
 def _explore(argv):
